@@ -779,6 +779,38 @@ pub fn factory_micro(which: &str) -> Vec<FScn> {
             v.push(s);
         }
     }
+    if all || which == "shrinkdrain" {
+        // a pool shrink leaves the busy out-of-pool worker draining with accepted jobs in its own queue, then
+        // DrainRequests arrives while every in-pool worker is idle: the factory must wait for that worker
+        for r in [Routing::KeyP, Routing::Custom, Routing::RoundRobin, Routing::Sticky] {
+            let mut s = base_scn(r, 2);
+            let mut c0 = vec![];
+            if r == Routing::Sticky {
+                // occupy worker 0 briefly so that key 1 lands on worker 1 and stays there
+                c0.push(job(9, 2, Beh::Ok, 2, true, None));
+            }
+            // key 1 hashes to worker 1 of 2 (key-persistent and custom tables); round-robin starts at worker 1
+            c0.push(job(1, 1, Beh::Ok, 40, true, None));
+            if r == Routing::RoundRobin {
+                c0.push(job(8, 2, Beh::Ok, 0, true, None));
+            }
+            c0.push(job(2, 1, Beh::Ok, 5, true, None));
+            if r == Routing::RoundRobin {
+                c0.push(job(7, 2, Beh::Ok, 0, true, None));
+            }
+            c0.push(job(3, 1, Beh::Ok, 0, true, None));
+            s.clients = vec![c0, vec![COp::Sleep(8), COp::Adjust(1), COp::Sleep(4), COp::Drain, COp::Sleep(3), job(6, 1, Beh::Ok, 0, true, None)]];
+            v.push(s);
+            // the same through UpdateSettings{worker_count}, three workers, two of them left draining
+            let mut s = base_scn(r, 3);
+            s.clients = vec![
+                vec![job(1, 1, Beh::Ok, 30, true, None), job(2, 2, Beh::Ok, 35, true, None), job(3, 3, Beh::Ok, 25, true, None), job(4, 1, Beh::Ok, 5, true, None),
+                     job(5, 2, Beh::Ok, 0, true, None), job(9, 3, Beh::Ok, 0, false, None)],
+                vec![COp::Sleep(6), COp::Update { limit: None, wc: Some(1) }, COp::Sleep(2), COp::Drain],
+            ];
+            v.push(s);
+        }
+    }
     if all || which == "discard" {
         for (r, newest) in [(Routing::Queuer, true), (Routing::Queuer, false), (Routing::KeyP, true), (Routing::KeyP, false), (Routing::RoundRobin, false)] {
             let mut s = base_scn(r, 1);
@@ -888,6 +920,45 @@ pub fn rand_scn(rng: &mut Rng) -> FScn {
     s
 }
 
+/// Random scenarios of one shape: busy workers with queued work, a pool shrink, then DrainRequests
+pub fn rand_shrink_drain(rng: &mut Rng) -> FScn {
+    let routing = [Routing::Sticky, Routing::KeyP, Routing::RoundRobin, Routing::Custom][rng.below(4)];
+    let mut s = base_scn(routing, 2 + rng.below(2));
+    if rng.chance(1, 4) {
+        s.limit = Some((1 + rng.below(2), rng.chance(1, 2)));
+    }
+    s.chash = [rng.next() % 1000, rng.next(), rng.next() % 7];
+    s.hook_yield = rng.chance(1, 2);
+    s.horizon_ms = 350;
+    let nkeys = 1 + rng.below(3);
+    let njobs = 4 + rng.below(5);
+    let mut c0 = vec![];
+    for id in 1..=njobs as i64 {
+        let beh = match rng.below(12) {
+            0 => Beh::Panic,
+            1 => Beh::KillAfter,
+            _ => Beh::Ok,
+        };
+        c0.push(COp::Submit { id, key: KEYS[rng.below(nkeys)], ttl: None, port: rng.chance(3, 4), beh, yields: rng.below(2) as u8, sleep_ms: [0u64, 5, 15, 30, 45][rng.below(5)] });
+        if rng.chance(1, 6) {
+            c0.push(COp::Sleep([1u64, 3, 10][rng.below(3)]));
+        }
+    }
+    let to = 1 + rng.below(s.workers - 1);
+    let shrink = if rng.chance(1, 2) { COp::Adjust(to) } else { COp::Update { limit: None, wc: Some(to) } };
+    let mut c1 = vec![COp::Sleep([0u64, 2, 6, 12][rng.below(4)]), shrink];
+    if rng.chance(2, 3) {
+        c1.push(COp::Sleep([0u64, 1, 4, 10][rng.below(4)]));
+    }
+    c1.push(COp::Drain);
+    if rng.chance(1, 3) {
+        c1.push(COp::Sleep(2));
+        c1.push(COp::Submit { id: 9, key: KEYS[rng.below(nkeys)], ttl: None, port: true, beh: Beh::Ok, yields: 0, sleep_ms: 0 });
+    }
+    s.clients = vec![c0, c1, vec![COp::Sleep(280), COp::Query]];
+    s
+}
+
 pub fn factory_batch(out: &str, tier: &str, seed: u64, which: &str) -> Value {
     let mut b = Batch::new(Some(out));
     let (dfs_cap, nrand, per) = if tier == "thorough" { (400usize, 3000usize, 3usize) } else { (40usize, 350usize, 2usize) };
@@ -918,6 +989,26 @@ pub fn factory_batch(out: &str, tier: &str, seed: u64, which: &str) -> Value {
         let mut rng = Rng(seed ^ 0x66616374);
         for _ in 0..nrand {
             let sc = rand_scn(&mut rng);
+            let mut ex = Explorer::new(Mode::Random, rng.next());
+            for _ in 0..per {
+                ex.begin_run();
+                let (evs, meta, bad) = factory_run(&sc, &mut ex);
+                let h = b.run(meta, &evs);
+                *by_routing.entry(sc.routing.name()).or_insert(0) += 1;
+                if ex.nontrivial {
+                    nontrivial.insert(h);
+                }
+                if bad {
+                    bad_runs += 1;
+                }
+            }
+        }
+    }
+    if which == "all" || which == "random" || which == "rshrinkdrain" {
+        // own generator and own stream, so that the scenarios above stay what they were
+        let mut rng = Rng(seed ^ 0x7364_7261);
+        for _ in 0..nrand / 5 {
+            let sc = rand_shrink_drain(&mut rng);
             let mut ex = Explorer::new(Mode::Random, rng.next());
             for _ in 0..per {
                 ex.begin_run();
